@@ -17,7 +17,8 @@ EXPLANATION = (
     "marker deletion sites are exactly _finish_committed (whose call sites are dominated by the commit point or lie "
     "on the empty-transaction branch) and the deleting branch of _rollback, after the files; (R3) in the collector "
     "the marker read dominates the metadata read (a transaction whose marker is gone has finished, so a LATER "
-    "metadata read sees its snapshot; the opposite order has a window); (R4) protection is applied to both sweeps.")
+    "metadata read sees its snapshot; the opposite order has a window); (R4) protection is applied to both sweeps."
+    " Also: (R5) the collector's marker handling fails closed (handler table of C07.R1); (R6) marker listings are complete and confined.")
 NOT_DECIDED = "grace-period arithmetic versus run duration; the interleavings themselves"
 
 GC = "garbage_collector.GarbageCollector"
